@@ -4,6 +4,7 @@
  *   Random seed n max random and degenerate large shapes */
 #define _GNU_SOURCE
 #include "drv.h"
+#include <pthread.h>
 #include <librfn/bintree.h>
 #include <librfn/util.h>
 
@@ -53,10 +54,16 @@ static void emit_step(int ret)
 	arr("left", l); printf(","); arr("right", r); printf(","); arr("tag", t); printf(","); arr("freed", f); printf("}\n");
 }
 static bool is_list(bintree_node_t *p) { return p && containerof(p, tn_t, node)->islist; }
+static void quiet_dealloc(bintree_node_t *p) { free(p); }
 static void dealloc(bintree_node_t *p)
 {
 	int i = idx(p);
 	emit_step(i);                      /* state as bintree_free sees it when it hands the node over */
+	{       /* a deallocator may own and free other trees: bintree_free must be re-entrant */
+		bintree_node_t *a = calloc(1, sizeof(*a)), *b = calloc(1, sizeof(*b));
+		a->left = b;
+		bintree_free(a, quiet_dealloc);
+	}
 	if (i >= 1 && i <= n && !freed[i]) { freed[i] = 1; memset(nodes[i], 0xDD, sizeof(tn_t)); free(blocks[i]); }
 }
 static void run_mode(const char *mode)
@@ -172,6 +179,52 @@ static void random_shape(int cnt)
 	n = cnt;
 	for (int i = 1; i <= cnt; i++) { L[map[i]] = l[i] ? map[l[i]] : 0; R[map[i]] = r[i] ? map[r[i]] : 0; ISL[i] = 0; }
 }
+/* very deep degenerate trees: freed (and iterated) inside a thread with a small stack; the oracle for these sizes is the
+ * driver's own bookkeeping (every node once, children before parents), the specification checks the tallies */
+static int deep_n, deep_kind, deep_freed, deep_ok, deep_iter;
+static bintree_node_t **deep_nodes;
+static char *deep_gone;
+static void deep_dealloc(bintree_node_t *p)
+{
+	long i = -1;
+	/* nodes are allocated in one array of pointers in pre-order: find by stored index (the node's slot is kept in its own block) */
+	i = *(long *)((char *)p + sizeof(bintree_node_t));
+	if (i < 0 || i >= deep_n || deep_gone[i]) { deep_ok = 0; return; }
+	if (i + 1 < deep_n && !deep_gone[i + 1]) deep_ok = 0;      /* in a chain the only child is the next node: children first */
+	deep_gone[i] = 1;
+	deep_freed++;
+	free(p);
+}
+static void *deep_thread(void *arg)
+{
+	(void)arg;
+	bintree_iterator_t it;
+	int cnt = 0;
+	for (bintree_node_t *p = bintree_iterate_post_order(&it, deep_nodes[0]); p; p = bintree_next(&it)) cnt++;
+	deep_iter = cnt;
+	bintree_free(deep_nodes[0], deep_dealloc);
+	return NULL;
+}
+static void deep(int n, int kind)
+{
+	deep_n = n; deep_kind = kind; deep_freed = 0; deep_ok = 1; deep_iter = 0;
+	deep_nodes = calloc(n, sizeof(*deep_nodes));
+	deep_gone = calloc(n, 1);
+	for (int i = 0; i < n; i++) { deep_nodes[i] = calloc(1, sizeof(bintree_node_t) + sizeof(long)); *(long *)((char *)deep_nodes[i] + sizeof(bintree_node_t)) = i; }
+	for (int i = 0; i + 1 < n; i++) {
+		int left = kind == 0 ? 1 : kind == 1 ? 0 : (i & 1);
+		if (left) deep_nodes[i]->left = deep_nodes[i + 1]; else deep_nodes[i]->right = deep_nodes[i + 1];
+	}
+	pthread_attr_t at;
+	pthread_attr_init(&at);
+	pthread_attr_setstacksize(&at, 256 * 1024);
+	pthread_t th;
+	pthread_create(&th, &at, deep_thread, NULL);
+	pthread_join(th, NULL);
+	printf("{\"e\":\"Deep\",\"n\":%d,\"kind\":%d,\"iter\":%d,\"freed\":%d,\"ok\":%d}\n", n, kind, deep_iter, deep_freed, deep_ok);
+	free(deep_nodes); free(deep_gone);
+}
+
 int main(void)
 {
 	drv_cmd_t c;
@@ -186,6 +239,8 @@ int main(void)
 				enum_rec(&f);
 			}
 			spines((mx - 1) / 2 + 2);
+		} else if (drv_is(&c, "Deep")) {
+			for (int kind = 0; kind < 3; kind++) deep(drv_arg(&c, 0), kind);
 		} else if (drv_is(&c, "Random")) {
 			drv_srand(drv_arg(&c, 0));
 			int cnt = drv_arg(&c, 1), mx = drv_arg(&c, 2);
